@@ -72,6 +72,7 @@ class C22(Property):
     drivers = ["Drivers/C22.lean"]
     translators = [cmdtmpl.generate]
     quick_budget_s = 900
+    thorough_budget_s = 3000
     rule = ("random trees (0..30 entries, empty files and directories, binary contents, names with blanks, quotes, unicode, leading dashes, in-tree "
             "symlinks; up to 1 MiB files in the thorough tier) are transferred with the real DefaultDataManager.transfer_data between every "
             "pair of {local, fake remote A location 0/1, fake remote B} (persistent-sh BaseConnector subclasses rooted in private directories), "
